@@ -369,12 +369,17 @@ CLAIMED = True
 LEVEL_TEXT = ("Theorem C09_unroll (about the API-level model of tx.unroll, no per-case residue): inside the guards the model RETURNS a "
               "lint-clean circuit and io map with io_map[o][t] = <o>_<prefix>_<t>, inputs = step-0 state inputs + per-step copies of the "
               "other inputs, and every consistent valuation carries at io_map[o][t] the value of running c for t+1 steps (all n, all "
-              "pairings; induction on the step; model = closed form and totality proved through the API step lemmas). sequential_unroll: "
-              "proved that whatever the model returns simulates the stripped circuit cycle by cycle (graph = plain unrolling up to output "
-              "marks / step-0 constants); the step from the stripped circuit to the flop circuit, the output marks, the initial-value "
-              "types and the model returning are decided per case by the Coq oracle (step-by-step simulation over all free-input "
-              "valuations, every flag combination, two calls on one object, argument unchanged).")
+              "pairings; induction on the step; model = closed form and totality proved through the API step lemmas). Theorem "
+              "C09_sequential_unroll_full (about the model and the FLOP CIRCUIT ITSELF): inside the guards sequential_unroll RETURNS, its io "
+              "map has the D and Q pin of every flop and no other pin, every consistent valuation carries at io_map[x][t] the value of node x "
+              "in cycle t of the cycle-accurate simulation (state = Q pins, next state = D pins) from the step-0 Q nodes, which are inputs "
+              "or the given constants (None/'0'/'1'/'x'/dict); D copies are outputs iff add_flop_outputs (chain of node removals that delete "
+              "only unread nodes, induction on the cycle, uniqueness of runs). The Coq oracle additionally decides every case by step-by-step "
+              "simulation over all free-input valuations (every flag combination, two calls on one object, argument unchanged).")
 LEVEL_NOTE = ("Trusted: Coq kernel + vm_compute, std++, harness; models tied to the Python code by correspondence on the returned graph and "
               "io map. Compose6.strip_blackboxes (C06's model) is reused. Guards: no bb-typed nodes, no empty/digit-leading names, no x "
-              "constants, dot-free prefix, generated names (<io>_<prefix>_<t>, unrolled_<t>_*) do not collide with node names.")
+              "constants, dot-free prefix, generated names (<io>_<prefix>_<t>, unrolled_<t>_*) do not collide with node names. Sequential "
+              "clause: one blackbox type, dot-free instance/pin names, flattened names <inst>_<pin> unambiguous and not node names, only Q "
+              "pins are read (a loaded non-D/Q output pin leaves an undriven buffer: outside lint_clean of the stripped circuit), D/Q not "
+              "ignored, dict keys distinct instances.")
 TECHNIQUE = "Coq model through the proved API model + vm_compute correspondence + exhaustive step-by-step simulation oracle"
